@@ -49,10 +49,44 @@ Proof.
 Qed.
 Print Assumptions C06_seq_revert.
 
-(* (ii) concurrent.  FULL STATEMENT (refuted for never-used pairs, see C06_conc_fresh_refuted):
-     forall hash prefix writers sched, Forall (fun c => - c_allow c <= c_after c) (g_c06 (sched_outcome hash prefix writers sched)).
-   g_c06 records, at every COMMIT of a writer whose source is bounded, the committed balance of the source before and after. *)
+(* (ii) concurrent, for ALL schedules and any number of writers (induction over the schedule; ConcProofs.invA / invB).
+   g_c06 records, at every COMMIT of a request whose source is bounded (allowance Some a), the committed balance of the source
+   right after the COMMIT, and whether the request held the row lock of its source since GetBalances (c_locked). *)
 
+(* the two-phase-locking invariant: between GetBalances (row lock taken, balance read = committed balance) and COMMIT nobody
+   else changes the row, so the funds check ran on the balance the COMMIT applies to: whatever the schedule, a COMMIT that held
+   the lock leaves its source at >= -allowance.  No hypothesis on the state. *)
+Theorem C06_conc_locked : forall hash prefix writers sched,
+  Forall (fun c => Conc.c_locked c = true -> - Conc.c_allow c <= Conc.c_after c) (Conc.g_c06 (Conc.sched_outcome hash prefix writers sched)).
+Proof. intros. destruct (ConcProofs.outcome_invA hash prefix writers sched) as [_ [_ H]]. exact H. Qed.
+Print Assumptions C06_conc_locked.
+
+(* C06_conc: if the (account, asset) row of every bounded source EXISTS (committed) before the race, every COMMIT holds the lock
+   (GetBalances finds the row in its snapshot, waits for its lock and re-reads it), hence after each COMMIT the committed balance
+   of the committing request's bounded source is >= -allowance: 0 for plain postings and non-forced reverts, X for
+   `allowing overdraft up to X`.  For ALL schedules. *)
+Theorem C06_conc : forall hash prefix writers sched,
+  ConcProofs.rows_exist (Conc.after_prefix hash prefix writers) writers ->
+  Forall (fun c => - Conc.c_allow c <= Conc.c_after c) (Conc.g_c06 (Conc.sched_outcome hash prefix writers sched)).
+Proof.
+  intros hash prefix writers sched HR.
+  destruct (ConcProofs.outcome_invA hash prefix writers sched) as [_ [_ HA]].
+  destruct (ConcProofs.outcome_invB hash prefix writers sched HR) as [_ [_ HB]].
+  rewrite Forall_forall in *. intros c Hc. apply HA; auto.
+Qed.
+Print Assumptions C06_conc.
+
+(* the same from any state satisfying the invariants (e.g. any reachable one), any writers *)
+Theorem C06_conc_from : forall g sched, ConcProofs.invA g -> ConcProofs.invB g ->
+  Forall (fun c => - Conc.c_allow c <= Conc.c_after c) (Conc.g_c06 (Conc.run g sched)).
+Proof.
+  intros g sched HA HB.
+  destruct (ConcProofs.invA_all_schedules g sched HA) as [_ [_ A]]. destruct (ConcProofs.invB_all_schedules g sched HB) as [_ [_ B]].
+  rewrite Forall_forall in *. intros c Hc. apply A; auto.
+Qed.
+Print Assumptions C06_conc_from.
+
+(* WITHOUT the hypothesis the statement is refuted (never-used pairs): *)
 (* the never-used pair: two requests "send 50 from alice allowing overdraft up to 50"; alice has no USD row.  Writer 1's
    GetBalances starts while writer 0's zero row is in flight: its INSERT ... ON CONFLICT DO NOTHING waits, then skips; its
    SELECT ... FOR UPDATE runs on the snapshot taken before the wait, sees no row, locks nothing and reports 0. *)
@@ -76,3 +110,23 @@ Example C06_witness_outcome :
   Conc.results g = [Conc.ROk 1 1 false; Conc.ROk 2 2 false] /\
   map (fun c => (Conc.c_locked c, Conc.c_after c, Conc.c_allow c)) (Conc.g_c06 g) = [(true, -50, 50); (false, -100, 50)].
 Proof. vm_compute. split; reflexivity. Qed.
+
+(* non-vacuity of C06_conc: alice holds 50 USD (row exists); two "send 100 allowing overdraft up to 50" race; the hypothesis
+   holds, both COMMIT records (under a schedule where the second one waits for the row lock) respect the allowance *)
+Definition fund_alice50 : Conc.cop :=
+  {| Conc.o_kind := Conc.KCreate; Conc.o_mode := Conc.MPlain; Conc.o_src := "world"; Conc.o_dst := "alice"; Conc.o_asset := "USD";
+     Conc.o_amt := 50; Conc.o_allow := 0; Conc.o_ref := ""; Conc.o_ik := ""; Conc.o_inh := 0; Conc.o_tx := 0 |}.
+Definition od100 (dst : string) (i : Z) : Conc.cop :=
+  {| Conc.o_kind := Conc.KCreate; Conc.o_mode := Conc.MOd; Conc.o_src := "alice"; Conc.o_dst := dst; Conc.o_asset := "USD";
+     Conc.o_amt := 100; Conc.o_allow := 50; Conc.o_ref := ""; Conc.o_ik := ""; Conc.o_inh := i; Conc.o_tx := 0 |}.
+Example C06_conc_hypothesis_holds :
+  ConcProofs.rows_exist (Conc.after_prefix true [fund_alice50] [od100 "bob" 0; od100 "carol" 1]) [od100 "bob" 0; od100 "carol" 1].
+Proof.
+  intros o a [<-|[<-|[]]] _; eexists; (split; [vm_compute; reflexivity|reflexivity]).
+Qed.
+Example C06_conc_example :
+  let g := Conc.sched_outcome true [fund_alice50] [od100 "bob" 0; od100 "carol" 1] [0; 1; 0; 0; 0; 0; 0; 1; 1]%nat in
+  Conc.results g = [Conc.ROk 2 2 false; Conc.RErr Conc.EInsufficient] /\
+  map (fun c => (Conc.c_locked c, Conc.c_after c, Conc.c_allow c)) (Conc.g_c06 g) = [(true, -50, 50)] /\
+  nth_error (Conc.g_ev g) 1 = Some (1%nat, Conc.LBal, Conc.SBlocked).
+Proof. vm_compute. repeat split; reflexivity. Qed.
